@@ -49,8 +49,8 @@ static Case decode(const uint8_t *data, size_t size) {
         for (int j = 0; j < nm; j++) t.mut.push_back({fdp.ConsumeIntegralInRange<int>(0, 9215), fdp.ConsumeIntegralInRange<int>(0, 255)});
         if (t.tmpl == 8) t.raw = blob(128);
         { static const int ets[] = {-1, -1, -1, -1, -1, -1, 0x8100, 0x88A8, 0x0800, 0xD988, 0x0000};
-          int x = fdp.ConsumeIntegralInRange<int>(0, 43);   // one byte: ethertype selector (0..10) and filler mode (x / 11)
-          t.ethertype = ets[x % 11]; t.pad_fill = (x / 11) % 4; }
+          int x = fdp.ConsumeIntegralInRange<int>(0, 54);   // one byte: ethertype selector (0..10) and filler mode (x / 11)
+          t.ethertype = ets[x % 11]; t.pad_fill = (x / 11) % 5; }
         o.kind = 9;
         o.blob = c01_frame((size_t)mtu, ownm, t);
         c.ops.push_back(o);
